@@ -7,6 +7,7 @@ var Registry = map[string]func(*core.Ctx){
 	"C01": C01,
 	"C05": C05,
 	"C06": C06,
+	"C12": C12,
 	"C13": C13,
 	"C14": C14,
 	"C15": C15,
